@@ -8,6 +8,8 @@ PROPS = {
         models=[
             dict(name="conc", pkg="./concx", test="TestConc", coq_mod="Conc.Spec", run_check="run_check_conc",
                  corpus="conc", quick_n=4000, thorough_n=150000, nontrivial=nt_len(8), tags="",
+                 # the same correspondence in the free-running regime, in every check (harness/concx/free_test.go)
+                 free_search=dict(test="TestConcFree", props={"C18": [5]}), free_always=True,
                  rule="implementation-driven random gate-level histories of one ConcurrentQueue (limit in {-1,0,1,2,3,4}, 0-3 initial "
                       "elements; Enqueue calls with 0-4 jobs parked before their section, WaitIdle with nil/buffered errCh, WatchState with "
                       "scripted callback outcomes, sections of producers / waiters / executeJob goroutines one at a time in any order, job "
